@@ -202,8 +202,14 @@ func checkCollectGates(c *Ctx, p *Prog, rule string, only func(name string) bool
 		if !ok {
 			return
 		}
-		h := call.Call.StaticCallee()
-		if h == nil || !isParserSig(h) || (only != nil && !only(h.Name())) {
+		// the parser called here: directly, or by the local closure that is handed it (`try(t.parseRune)`)
+		var h *ssa.Function
+		for _, f := range calleesAt(in) {
+			if isParserSig(f) {
+				h = f
+			}
+		}
+		if h == nil || (only != nil && !only(h.Name())) {
 			return
 		}
 		n++
